@@ -39,6 +39,9 @@ package fox
 //@ func newNode props C03,C05,C02 partial
 //@   modifies elems(children)
 //@   ensures result != nil && fresh(result) && same(result.key, key) && result.route == route && result.children == children && len(result.childKeys) == len(children) && (len(children) > 0 ==> fresh(result.childKeys))
+//@   ensures @C01 index-ranges: -1 <= result.paramChildIndex && result.paramChildIndex < len(children) && -1 <= result.wildcardChildIndex && result.wildcardChildIndex < len(children)
+//@   ensures @C01 params-ok: keyOK(key) ==> paramsOK(key, result.params)
+//@   loop 1: invariant @C01 -1 <= paramChildIndex && paramChildIndex < len(children) && -1 <= wildcardChildIndex && wildcardChildIndex < len(children) && 0 <= rangeindex + 1 && rangeindex < len(children)
 
 //@ func (*node).clone props C03,C05 partial
 //@   requires n != nil
